@@ -493,7 +493,8 @@ func (g *genSession) genDatagram(r *rand.Rand, cfg genCfg, first bool) dgram {
 	hdr, hdrTxt := p.header(r, ver)
 	msg := hdr
 	var recs []string
-	longPad := 0 // longest set padding of more than 4 octets in this datagram (names a failure: K3)
+	longPad := 0  // longest set padding of more than 4 octets in this datagram (names a regression of F16: tag K3)
+	shortRec := 0 // length of the last data record of at most 4 octets in this datagram (names a regression of K2)
 	ns := 1 + r.Intn(4)
 	// templates announced in this datagram take effect for later sets of the same datagram
 	for i := 0; i < ns; i++ {
@@ -571,11 +572,14 @@ func (g *genSession) genDatagram(r *rand.Rand, cfg genCfg, first bool) dgram {
 			for j := 0; j < nr; j++ {
 				rb, vals := p.genRecord(r, t)
 				body = append(body, rb...)
-				if len(rb) <= 4 {
-					okSet = false // K2: records of <= 4 octets are taken for padding
+				if len(rb) == 0 {
+					okSet = false // a record of no octets (all field lengths 0) is reported as an error (F2)
 				}
 				if okSet {
 					recs = append(recs, expectRec(t, vals))
+					if len(rb) <= 4 {
+						shortRec = len(rb)
+					}
 				}
 			}
 			if !okSet {
@@ -632,9 +636,13 @@ func (g *genSession) genDatagram(r *rand.Rand, cfg genCfg, first bool) dgram {
 	d := dgram{addr: addr, bytes: msg, wf: wf}
 	if wf {
 		d.expect = "msg " + hdrTxt + " errs= recs=" + strings.Join(recs, "")
+		// "K3 <n> <expected line>" / "K2 <n> <expected line>": the full expected decode is checked as for every
+		// other case; the tag only lets runDecode NAME a failure (long padding read as a record / short records
+		// dropped as padding: both repaired by the padding fix, known_findings F16 / K2)
 		if longPad > 0 {
-			// "K3 <n> <expected line>": the full expected decode is checked; the tag only names the failure
 			d.expect = fmt.Sprintf("K3 %d %s", longPad, d.expect)
+		} else if shortRec > 0 {
+			d.expect = fmt.Sprintf("K2 %d %s", shortRec, d.expect)
 		}
 	}
 	return d
@@ -843,10 +851,12 @@ func (p *flowProto) runDecode(st *state, line, expect string) (string, string) {
 	case ms1.TotalAlloc-ms0.TotalAlloc > allocBound(len(dg), maxPrev):
 		verdict = fmt.Sprintf("fail:alloc %d bytes allocated for a %d-octet datagram (bound %d)", ms1.TotalAlloc-ms0.TotalAlloc, len(dg), allocBound(len(dg), maxPrev))
 	case (strings.HasPrefix(expect, "K2 ") || strings.HasPrefix(expect, "K3 ")) && len(expect) > 5 && ln != expect[5:]:
-		// "K2 <n> <expected line>", n = octets per record (<= 4): witness of finding K2. "K3 <n> <expected line>",
-		// n = octets of set padding (5..7, shorter than the shortest record). The expected line is checked in full; the
-		// tag names the failure, and only when the harness has itself checked that the difference is of that kind:
-		// K2 = what is missing is exactly a tail of records; K3 = the whole message was lost with a short read.
+		// Regression names (both defects are repaired; a tagged case is an ordinary case whose expected line is
+		// checked in full, and a mismatch is an ordinary fail: verdict that no known finding matches).
+		// "K2 <n> <expected line>": the datagram has data records of n <= 4 octets; "K3 <n> <expected line>": it has
+		// n = 5..7 octets of set padding (shorter than the shortest record). The class is used only when the harness has
+		// itself checked that the difference is of that kind: K2 = what is missing is exactly a tail of records;
+		// K3 = the whole message was lost with a short read. Anything else is fail:roundtrip.
 		exp := expect[5:]
 		n := int(expect[3] - '0')
 		switch {
